@@ -1567,6 +1567,14 @@ func rebuildImpl(args rebuildArgs, oldHashes map[string]string) (rebuildState, m
 		}
 	}
 
+	// A failed build has no output files, which must not be mistaken for "every
+	// file of the previous build is stale": keep the previous hash table. Then
+	// nothing is deleted below, and the next successful build still deletes the
+	// files that have become stale and skips the ones that are unchanged.
+	if log.HasErrors() {
+		newHashes = oldHashes
+	}
+
 	// Write output files before "OnEnd" callbacks run so they can expect
 	// output files to exist on the file system. "OnEnd" callbacks can be
 	// used to move output files to a different location after the build.
